@@ -15,7 +15,7 @@ const OPS: &[&str] = &[
 const UIS: &[Option<&str>] = &[None, Some(""), Some("u"), Some("u:p")];
 const HOSTS: &[&str] = &["", "h", "example.org", "1.2.3.4", "[::1]", "[v1.a:b]", "\u{e9}", "%41"];
 const PORTS: &[Option<&str>] = &[None, Some(""), Some("80")];
-const TAILS: &[&str] = &["", "/path", "?q", "#f", "/a/b?q#f"];
+const TAILS: &[&str] = &["", "/path", "?q", "#f", "/a/b?q#f", "/~u@home:1", "?to=a@b:c#x@y"];
 const PRES: &[&str] = &["//", "s://"];
 
 pub fn exec(ctx: &mut Ctx, case: &Case) {
